@@ -92,6 +92,15 @@ func (pConn *PFCPConn) handleSessionEstablishmentRequest(msg message.Message) (m
 		return errProcessReply(ErrAssocNotFound, ie.CauseNoEstablishedPFCPAssociation)
 	}
 
+	// session handling and the teardown of the association exclude each other
+	pConn.sessMu.Lock()
+	defer pConn.sessMu.Unlock()
+
+	if pConn.torndown {
+		// the association has just ended: a session created now would outlive it
+		return errProcessReply(ErrAssocNotFound, ie.CauseNoEstablishedPFCPAssociation)
+	}
+
 	session, ok := pConn.NewPFCPSession(remoteSEID)
 	if !ok {
 		return errProcessReply(ErrAllocateSession,
@@ -205,6 +214,10 @@ func (pConn *PFCPConn) handleSessionModificationRequest(msg message.Message) (me
 	if !ok {
 		return nil, errUnmarshal(errMsgUnexpectedType)
 	}
+
+	// session handling and the teardown of the association exclude each other
+	pConn.sessMu.Lock()
+	defer pConn.sessMu.Unlock()
 
 	var remoteSEID uint64
 
@@ -477,6 +490,10 @@ func (pConn *PFCPConn) handleSessionDeletionRequest(msg message.Message) (messag
 		return nil, errUnmarshal(errMsgUnexpectedType)
 	}
 
+	// session handling and the teardown of the association exclude each other
+	pConn.sessMu.Lock()
+	defer pConn.sessMu.Unlock()
+
 	sendError := func(err error) (message.Message, error) {
 		smres := message.NewSessionDeletionResponse(0, /* MO?? <-- what's this */
 			0,                                    /* FO <-- what's this? */
@@ -610,6 +627,10 @@ func (pConn *PFCPConn) handleSessionReportResponse(msg message.Message) error {
 	seid := srres.SEID()
 
 	if cause == ie.CauseSessionContextNotFound {
+		// session handling and the teardown of the association exclude each other
+		pConn.sessMu.Lock()
+		defer pConn.sessMu.Unlock()
+
 		sessItem, ok := pConn.store.GetSession(seid)
 		if !ok {
 			return errProcess(ErrNotFoundWithParam("PFCP session context", "SEID", seid))
